@@ -328,7 +328,7 @@ func c02Prop(c *sim.Case) {
 	ho.o.IDPreamble = sim.PickStr(c, "idpreamble", "Bearer", "", "Token", "a b", "Bearer ", " x")
 	ho.o.ATHeader = sim.PickStr(c, "atheader", "x-access-token", "X-Access-Token", "x-forwarded-access-token")
 	ho.o.ATPreamble = sim.PickStr(c, "atpreamble", "", "Bearer", "Access", "Access ", " y")
-	ops0 := genOps(c, c02Profile, 24)
+	ops0 := append([]op{{K: "login", B: 0, Target: "/start"}}, genOps(c, c02Profile, 24)...)
 	var ops []op
 	for _, o := range ops0 {
 		if (o.K == "login" || o.K == "callback") && sim.Weighted(c, "forge-before", 2, 3) == 1 {
@@ -418,5 +418,52 @@ func TestC02(t *testing.T) {
 	}
 	r.CheckKnown(parts)
 	r.Exhaustive("each", 0, c02Each)
-	r.Rapid("histories", r.N(4000, 120000), c02Prop)
+	r.Rapid("histories", r.N(12000, 200000), c02Prop)
+}
+
+// FuzzC02IDToken: coverage-guided mutation of the ID-token string served by the token endpoint on the login or
+// the refresh path; the oracle is the C02 monitor (bound => verifies under the configured keys with an
+// independent verifier, audience and nonce right; forwarded == bound).
+func FuzzC02IDToken(f *testing.F) {
+	k := sim.Keys()[0]
+	claims := map[string]any{"aud": "client-1", "nonce": "n", "exp": 4102444800, "sub": "u"}
+	honest := sim.HonestToken(k, claims)
+	f.Add(honest, false, uint8(0))
+	f.Add(honest, true, uint8(1))
+	h, p, s := segs(honest)
+	f.Add(h+"."+p+".", false, uint8(0))
+	f.Add(rawB64([]byte(`{"alg":"none"}`))+"."+p+".", false, uint8(0))
+	f.Add(`{"payload":"`+p+`","protected":"`+h+`","signature":"`+s+`"}`, false, uint8(2))
+	f.Fuzz(func(t *testing.T, tok string, onRefresh bool, mode uint8) {
+		r := sim.NewRun(t, "C02F")
+		r.Direct("fuzz", nil, func(c *sim.Case) {
+			ho := histOpts{o: sim.WorldOpts{AccessToken: true, Logout: true}, idTTL: 60e9, expIn: 30}
+			m := &c02Mon{bound: map[string]*oidc.TokenResponse{}}
+			hh := ho.build(c, m)
+			defer hh.w.Close()
+			beh := &sim.Behaviour{Name: "fuzz", Mutate: func(p *sim.IdP, honest string, cl map[string]any, _ *sim.TokenCall) string {
+				switch mode % 3 {
+				case 1: // splice the fuzzed string in as the signature of an honest token
+					a, b, _ := segs(honest)
+					return a + "." + b + "." + tok
+				case 2: // ... or as the payload under the honest signature
+					a, _, cc := segs(honest)
+					return a + "." + tok + "." + cc
+				}
+				return tok
+			}}
+			var ops []op
+			if onRefresh {
+				ops = []op{{K: "login", Target: "/a"}, {K: "advance", Rel: "idexp", D: 1e9}, {K: "idp", Beh: beh}, {K: "nav", Target: "/a"}, {K: "nav", Target: "/a"}}
+			} else {
+				ops = []op{{K: "idp", Beh: beh}, {K: "login", Target: "/a"}, {K: "nav", Target: "/a"}}
+			}
+			for i := range ops {
+				hh.exec(&ops[i])
+			}
+		})
+		if r.Failed() {
+			t.Fatalf("violation (see output)")
+		}
+	})
 }
